@@ -164,6 +164,15 @@ def run(ctx, only=None):
                 df2 = df2[list(rng.sample(list(df2.columns), len(df2.columns)))]
                 if rng.random() < 0.5:
                     df2 = pd.concat([df2, df2.iloc[[0]].assign(score=99.0)], ignore_index=True)
+                ri = rng.random()
+                if ri < 0.3 and len(df2) > 1:
+                    order = list(range(len(df2)))
+                    rng.shuffle(order)
+                    df2 = df2.iloc[order]                      # rows shuffled, index labels permuted
+                elif ri < 0.5 and len(df2) > 1:
+                    df2 = df2.iloc[1:]                         # index starts at 1
+                elif ri < 0.6:
+                    df2 = pd.concat([df2, df2.iloc[[0]]])      # duplicate index label
                 o3 = outcome(lambda: [([int(x) for x in k], float(v)) for k, v in conv.dataframe2memory_dict(df2).items()])
                 cols = [c for c in df2.columns if c != "score"]
                 colids = [names.index(c) if c in names else 1000 for c in cols]
